@@ -2,8 +2,8 @@
 //! round-trip / differential / totality oracles.
 use re::math::{rgb, Color3};
 use re::util::buf::{AsSlice2, Buf2, Slice2};
-use re::util::pnm::{parse_pnm, read_pnm, write_ppm};
-use re_geom::io::{parse_obj, read_obj};
+use re::util::pnm::{load_pnm, parse_pnm, read_pnm, save_ppm, write_ppm};
+use re_geom::io::{load_obj, parse_obj, read_obj};
 use vlib::*;
 
 fn hex(b: &[u8]) -> String { b.iter().map(|x| format!("{x:02x}")).collect() }
@@ -108,6 +108,30 @@ impl std::io::Write for Chunky {
     fn flush(&mut self) -> std::io::Result<()> { Ok(()) }
 }
 
+/// A scratch file private to the calling thread, next to the engine binary (not under /tmp).
+fn scratch_file(ext: &str) -> std::path::PathBuf {
+    let dir = std::env::current_exe().ok().and_then(|p| p.parent().map(|d| d.join("scratch"))).unwrap_or_else(|| "scratch".into());
+    let _ = std::fs::create_dir_all(&dir);
+    dir.join(format!("{}-{:?}.{ext}", std::process::id(), std::thread::current().id()).replace(['(', ')'], ""))
+}
+
+/// The path-based entry points: save_ppm to a file, load_pnm from it.
+fn pnm_roundtrip_file(view: Slice2<Color3>, expect: &Img, r: &mut Report, tag: &str, case: J) {
+    r.eval();
+    let path = scratch_file("ppm");
+    match caught(|| save_ppm(&path, view)) {
+        Err(p) => { r.violation(format!("ppm-write-panic|file|{tag}"), format!("save_ppm panicked: {p}"), case); return; }
+        Ok(Err(e)) => { r.violation(format!("ppm-write-error|file|{tag}"), format!("save_ppm error: {e}"), case); return; }
+        Ok(Ok(())) => {}
+    }
+    match caught(|| load_pnm(&path)) {
+        Err(p) => r.violation(format!("ppm-roundtrip-panic|file|{tag}"), format!("load_pnm panicked: {p}"), case),
+        Ok(Ok(b)) if (b.width(), b.height(), b.data().iter().map(|c| c.0).collect::<Vec<_>>()) == *expect => { r.nontrivial(); }
+        Ok(other) => r.violation(format!("ppm-roundtrip|load_pnm|{tag}"), format!("save_ppm then load_pnm: wrote {}x{}, read back {:?}", expect.0, expect.1, other.map(|b| b.dims())), case),
+    }
+    let _ = std::fs::remove_file(&path);
+}
+
 fn pnm_roundtrip_view(view: Slice2<Color3>, expect: &Img, r: &mut Report, tag: &str, case: J) {
     r.eval();
     let mut out = vec![];
@@ -144,6 +168,7 @@ fn pnm_roundtrip_owned(w: u32, h: u32, px: &[[u8; 3]], r: &mut Report) {
         Err(_) => { r.h("owned-buffer-not-constructible"); return; }
     };
     let tag = format!("owned {w}x{h} {}", hex(&px.concat()));
+    if px.len() > 16 || px.iter().flatten().fold(w.wrapping_mul(31) ^ h, |a, b| a.wrapping_mul(131).wrapping_add(*b as u32)) % 16 == 0 { pnm_roundtrip_file(buf.as_slice2(), &(w, h, px.to_vec()), r, &tag, case.clone()); }
     pnm_roundtrip_view(buf.as_slice2(), &(w, h, px.to_vec()), r, &tag, case);
 }
 
@@ -286,7 +311,7 @@ fn run_pnm(cfg: &Cfg) -> ! {
         rep.merge(r);
     }}
     // scale sentinels: images with extents beyond 255 (and a long single row), hostile bytes throughout
-    for (w, h) in [(300u32, 2u32), (2, 300), (257, 1), (1, 1000), (70, 70)] {
+    for (w, h) in [(300u32, 2u32), (2, 300), (257, 1), (1, 1000), (70, 70), (65535, 1), (65536, 1), (1, 65537), (70001, 2)] {
         let px: Vec<[u8; 3]> = (0..(w * h) as usize).map(|k| [HOSTILE[k % 9], HOSTILE[(k / 9 + 1) % 9], (k * 7 % 256) as u8]).collect();
         pnm_roundtrip_owned(w, h, &px, &mut rep);
         // the same data as P3 text and P6 binary must decode alike
@@ -377,6 +402,15 @@ fn obj_decode(bytes: &[u8]) -> Result<(Result<ObjMesh, String>, Result<ObjMesh, 
     };
     let a = caught(|| conv(parse_obj(bytes.iter().copied()))).map_err(|p| format!("parse_obj panicked: {p}"))??;
     let b = caught(|| conv(read_obj(bytes))).map_err(|p| format!("read_obj panicked: {p}"))??;
+    // the path-based entry point on one input in 512 (by content hash)
+    if bytes.iter().fold(bytes.len() as u32, |a, b| a.wrapping_mul(131).wrapping_add(*b as u32)) % 512 == 0 {
+        let path = scratch_file("obj");
+        if std::fs::write(&path, bytes).is_ok() {
+            let c = caught(|| conv(load_obj(&path))).map_err(|p| format!("load_obj panicked: {p}"))??;
+            let _ = std::fs::remove_file(&path);
+            if c != a { return Err(format!("load_obj from a file gives {c:?} but parse_obj on the same bytes gives {a:?}")); }
+        }
+    }
     Ok((a, b))
 }
 
@@ -395,7 +429,10 @@ fn obj_totality(bytes: &[u8], r: &mut Report, kind: &str) {
     }
 }
 
-const COORDS: [(&str, f32); 11] = [("0", 0.0), ("1", 1.0), ("-2.5", -2.5), ("1e3", 1000.0), ("-1.0e0", -1.0), ("+.5", 0.5), ("0.03", 0.03), ("1.23e-2", 0.0123), ("1.5E3", 1500.0), ("2E+1", 20.0), ("-4.E-1", -0.4)];
+// (the last three are long literals a double-precision exporter prints: just above an f32 rounding midpoint, so that
+// parsing via f64 and casting rounds twice and lands one ulp low; expected values are the correctly rounded ones)
+const COORDS: [(&str, f32); 14] = [("0", 0.0), ("1", 1.0), ("-2.5", -2.5), ("1e3", 1000.0), ("-1.0e0", -1.0), ("+.5", 0.5), ("0.03", 0.03), ("1.23e-2", 0.0123), ("1.5E3", 1500.0), ("2E+1", 20.0), ("-4.E-1", -0.4),
+    ("1.0000000596046448", f32::from_bits(0x3f800001)), ("1.6777217000000000000001e7", f32::from_bits(0x4b800001)), ("-8388608.5000000000000001", f32::from_bits(0xcb000001))];
 const DECOR: [&str; 10] = ["", "  ", "\t", "trail", "blank", "comment", "icomment", "cr", "longcomment", "deepindent"];
 
 /// One grammar-generated file. idx encodes (V, faces, form, layout, decoration, line ending, final newline).
@@ -427,7 +464,9 @@ fn obj_grammar(idx: u64, r: &mut Report, maxv: usize, maxf: usize) {
     }
     let mut extra = vec![];
     if form == 1 || form == 3 { for k in 0..nv.max(1) { extra.push(format!("vt 0.{k} 1")); } }
-    if form >= 2 { for k in 0..nv.max(1) { extra.push(format!("vn 0 {k} 1")); } }
+    // normals are arbitrary triples in a well-formed file: zero, denormal-small, non-unit and huge ones included
+    const NORMALS: [&str; 6] = ["0 0 1", "0 0 0", "1e-30 0 1e-25", "0.0 -0.0 0e0", "3 4 0", "1e30 -1e30 1e30"];
+    if form >= 2 { for k in 0..nv.max(1) { extra.push(format!("vn {}", NORMALS[(k + coord_rot) % 6])); } }
     let flines: Vec<String> = faces.iter().map(|f| {
         let t: Vec<String> = f.iter().map(|&v| { let v = v + 1; match form { 0 => format!("{v}"), 1 => format!("{v}/{v}"), 2 => format!("{v}//{v}"), _ => format!("{v}/{v}/{v}") } }).collect();
         format!("f {} {} {}", t[0], t[1], t[2])
